@@ -611,6 +611,12 @@ pub fn snap_digest(s: &Snapshot, root: &str) -> u64 {
     for (k, v) in s {
         h = h.rotate_left(5) ^ fnv(k.as_bytes());
         match v {
+            Node::File(b) if k.ends_with(".ts") => {
+                // the "Generated at:" line carries the simulated clock, whose reading depends on
+                // how often indicatif's real-time ticker made the progress bar look at it:
+                // no oracle reads that line, and the digest must not either
+                h = h.rotate_left(7) ^ fnv(crate::canon::strip_ts(b).as_bytes())
+            }
             Node::File(b) => {
                 let has_root = !rb.is_empty() && b.windows(rb.len()).any(|w| w == rb);
                 if has_root {
